@@ -86,6 +86,9 @@ func (rl *RangeLoop) Iterate() inspector.LoopCtl {
 			return inspector.LoopCtlBrk
 		}
 		if err == ErrContLoop {
+			if lerr == ErrLBreakLoop {
+				return inspector.LoopCtlBrk
+			}
 			return inspector.LoopCtlCnt
 		}
 		if err != nil && err != ErrLBreakLoop {
